@@ -139,7 +139,7 @@ CHECKS.update({
              "the saved value; step() restores on the error outcome; whoever empties the saved-environment slot restores it whenever "
              "it held a value; prepare() disposes of a still-active run. The nine "
              "violations of the pinned tree (all reproduced with observer programs) were repaired (fix: commit). Frames of a "
-             "run abandoned inside a call are not decided. Also: every error step() returns for a resumed run passes abort/finalize; prepare() looks at every slot a stopped run can live in; the disposer empties exports, the parked continuation and the wait graph; eval()/prepare() start with an empty export table. Both entry points dispose of an unfinished previous run and reset the parked program before they parse (repaired, fix: commits).",
+             "run abandoned inside a call are not decided. Also: every error step() returns for a resumed run passes abort/finalize; prepare() looks at every slot a stopped run can live in; the disposer empties exports, the parked continuation and the wait graph; eval()/prepare() start with an empty export table. Both entry points dispose of an unfinished previous run and reset the parked program before they parse (repaired, fix: commits). eval() disposes of a run that fails, as step() does (repaired, fix: commit).",
         ref="4/C11"),
 })
 
